@@ -20,7 +20,8 @@ def coq_op(o):
     k, a = o[0], o[1:]
     z = F.zlit
     return {"N": lambda: f"ZN {z(a[0])} {z(a[1])}", "E": lambda: f"ZE {z(a[0])} {z(a[1])}", "R": lambda: f"ZR {z(a[0])}",
-            "P": lambda: f"ZP {z(a[0])}", "B": lambda: "ZB", "Q": lambda: "ZQ", "A": lambda: f"ZA {z(a[0])}"}[k]()
+            "P": lambda: f"ZP {z(a[0])}", "B": lambda: "ZB", "Q": lambda: "ZQ", "A": lambda: f"ZA {z(a[0])}",
+            "C": lambda: f"ZC {z(a[0])} {z(a[1])}"}[k]()
 
 
 def build(item, ops=None):
@@ -147,6 +148,8 @@ def replay_shape(ops):
     for o in ops:
         if o[0] == "N":
             sh.add_node(o[2])
+        elif o[0] == "C":
+            sh.add_node(CTOR_NBUF[o[1]])
         elif o[0] == "E":
             if o[1] < len(sh.live) and o[2] < len(sh.live) and sh.live[o[1]] and sh.live[o[2]]:
                 sh.add_edge(o[1], o[2])
@@ -165,6 +168,21 @@ def replay_shape(ops):
 NONTRIVIAL = {"self_loop", "parallel_edge", "vacancy", "two_paths", "cycle", "zero_buffer_node_upstream"}
 
 
+# the short-hand constructors of NodeData (script op `C c k`) and the number of buffers each documents
+CTOR_NAMES = {1: "NodeData::new1", 2: "NodeData::new2", 3: "NodeData::boxed1", 4: "NodeData::boxed2"}
+CTOR_NBUF = {1: 1, 2: 2, 3: 1, 4: 2}
+
+
+def node_op(rc, k, nb):
+    """the script operation that adds a node of kind k with nb buffers: `N k nb` (NodeData::boxed with an explicit
+    buffer list) or, for half of the nodes with one or two buffers, one of the two short-hand constructors that
+    document this buffer count (new1 / boxed1, new2 / boxed2).  rc: a PRNG stream used for nothing else, so that
+    the shapes drawn from the other streams are what they were before this family existed."""
+    if nb in (1, 2) and rc.chance(1, 2):
+        return ["C", nb + (2 if rc.chance(1, 2) else 0), k]
+    return ["N", k, nb]
+
+
 def pick_nbuf(r):
     """1 node in 6 has no output buffer (meter/recorder style), 1 in 6 has two"""
     x = r.below(6)
@@ -177,6 +195,7 @@ def gen_exhaustive(rng, tier):
     the graphs with <= 3 edges), Graph and StableGraph; StableGraph also with one vacant slot."""
     items = []
     rb = rng.fork("exh_nbuf")
+    rc = rng.fork("exh_ctor")
     for nn in (1, 2, 3):
         pairs = [(a, b) for a in range(nn) for b in range(nn)]
         for ne in range(0, 5):
@@ -187,7 +206,7 @@ def gen_exhaustive(rng, tier):
                     allp += [["P", o], ["B"]]
                 for kind in ("G", "S"):
                     # buffer counts drawn per case (1 node in 6 without buffers, 1 in 6 with two)
-                    base = [["N", 0, pick_nbuf(rb)] for _ in range(nn)] + edges
+                    base = [node_op(rc, 0, pick_nbuf(rb)) for _ in range(nn)] + edges
                     items.append(build(dict(kind=kind, fam="exh", ops=base + allp + [["Q"]])))
                 if ne <= 2 or (tier == "thorough" and ne <= 3):
                     base = [["N", 0, 1]] * nn + edges
@@ -198,8 +217,8 @@ def gen_exhaustive(rng, tier):
                 # every output node (also the one without buffers), from a fresh processor each
                 if ne <= 2 or (tier == "thorough" and ne <= 3):
                     for z in range(nn):
-                        base = [["N", 0, 0 if j == z else 1 + (j + ne) % 2] for j in range(nn)] + edges
                         for kind in ("G", "S"):
+                            base = [node_op(rc, 0, 0 if j == z else 1 + (j + ne) % 2) for j in range(nn)] + edges
                             items.append(build(dict(kind=kind, fam="exh0", ops=base + allp + [["Q"]])))
     # a node that panics once inside Node::process (the host catches the unwinding and keeps using the
     # same processor): every graph (<= 2 edges quick, <= 3 thorough) x every armed node x every output
@@ -208,14 +227,32 @@ def gen_exhaustive(rng, tier):
         pairs = [(a, b) for a in range(nn) for b in range(nn)]
         for ne in range(0, 3 if tier == "quick" else 4):
             for seq in itertools.product(pairs, repeat=ne):
-                base = [["N", 0, 1 + (j + ne) % 2] for j in range(nn)] + [["E", a, b] for a, b in seq]
                 for arm in range(nn):
                     for o1 in range(nn):
+                        base = [node_op(rc, 0, 1 + (j + ne) % 2) for j in range(nn)] + [["E", a, b] for a, b in seq]
                         ops = base + [["A", arm], ["P", o1], ["B"]]
                         for o in range(nn):
                             ops += [["P", o], ["B"]]
                         for kind in ("G", "S"):
                             items.append(build(dict(kind=kind, fam="exhpanic", ops=ops)))
+    # every short-hand constructor at every position of every graph with <= 2 edges over <= 3 nodes (the other nodes
+    # alternate between the remaining constructors and explicit buffer lists), every output node, sources/sinks;
+    # on a StableGraph also a node built by the constructor into a re-used vacant slot
+    for nn in (1, 2, 3):
+        pairs = [(a, b) for a in range(nn) for b in range(nn)]
+        for ne in range(0, 3):
+            for seq in itertools.product(pairs, repeat=ne):
+                for c in (1, 2, 3, 4):
+                    for pos in range(nn):
+                        nodes = [["C", c, (j + ne) % 2] if j == pos else
+                                 (["C", 1 + (c + j) % 4, 0] if (j + ne) % 2 else ["N", (j + c) % 2, (c + j + ne) % 3]) for j in range(nn)]
+                        ops = nodes + [["E", a, b] for a, b in seq]
+                        for o in range(nn):
+                            ops += [["P", o], ["B"]]
+                        kind = "GS"[(c + pos + ne + len(items)) % 2]
+                        if kind == "S" and (c + pos + ne) % 3 == 0:
+                            ops += [["R", pos], ["C", c, 1], ["B"], ["P", pos], ["B"]]
+                        items.append(build(dict(kind=kind, fam="exhctor", ops=ops + [["Q"]])))
     # StableGraph with a vacancy: nn live nodes + one removed slot at each position, <= 3 edges
     for nn in (1, 2, 3):
         for vac in range(nn + 1):
@@ -225,7 +262,7 @@ def gen_exhaustive(rng, tier):
                 for seq in itertools.product(pairs, repeat=ne):
                     # half of the edges before the removal (one of them touching the removed node)
                     pre = [["E", vac, livei[0]], ["E", livei[-1], vac], ["E", vac, vac]]
-                    ops = [["N", 0, pick_nbuf(rb)] for _ in range(nn + 1)] + pre + [["E", a, b] for a, b in seq[:ne // 2]] + [["R", vac]] \
+                    ops = [node_op(rc, 0, pick_nbuf(rb)) for _ in range(nn + 1)] + pre + [["E", a, b] for a, b in seq[:ne // 2]] + [["R", vac]] \
                         + [["E", a, b] for a, b in seq[ne // 2:]]
                     for o in livei:
                         ops += [["P", o], ["B"]]
@@ -239,6 +276,7 @@ def gen_random(rng, tier):
     n_rand = 700 if tier == "quick" else 12000
     for k in range(n_rand):
         r = rng.fork(f"g{k}")
+        rc = r.fork("ctor")
         kind = "S" if r.chance(3, 5) else "G"
         nn = r.choice([2, 3, 4, 5, 6, 8, 10, 12, 16, 20, 25, 30, 40])
         dag = r.chance(1, 2)
@@ -248,7 +286,7 @@ def gen_random(rng, tier):
         ops = []
         for _ in range(nn):
             nb = pick_nbuf(r)
-            ops.append(["N", 1 if r.chance(1, 3) else 0, nb])
+            ops.append(node_op(rc, 1 if r.chance(1, 3) else 0, nb))
             sh.add_node(nb)
         perm = list(range(nn))
         for i in range(nn - 1, 0, -1):          # a random topological order for the DAG family
@@ -269,7 +307,7 @@ def gen_random(rng, tier):
                     sh.remove(a)
                     if readd and r.chance(1, 2):
                         nb = pick_nbuf(r)
-                        ops.append(["N", 1 if r.chance(1, 3) else 0, nb])
+                        ops.append(node_op(rc, 1 if r.chance(1, 3) else 0, nb))
                         sh.add_node(nb)
             if e == ne:
                 break
